@@ -54,7 +54,12 @@ ARG_NAMES = ['b', 'a', 'd', 'c', 'e']      # deliberately not in sorted order
 def make_values(rng, k, kind=None):
     """k distinct argument values of one kind, in random (unsorted) order"""
     kind = kind or rng.choice(['int', 'float', 'str'])
-    if kind == 'int':
+    if kind == 'mixed':
+        # ints, non-integral floats and strings in one list (no two equal under ==)
+        pool = ([i for i in range(-5, 40)] + [x / 4 for x in range(-19, 160) if x % 4] +
+                ['p', 'q', 'r', 's', 'tt', 'u', 'vv', 'w'])
+        vals = rng.sample(pool, k)
+    elif kind == 'int':
         vals = rng.sample(range(-5, 40 + 2 * k), k)
     elif kind == 'float':
         vals = [x / 4 for x in rng.sample(range(-20, 80 + 2 * k), k)]
